@@ -1059,12 +1059,19 @@ func (*writerIndex).Keys
     flags locks lockonly noframe
     requires[locks] held(&ix.mu) == 0
 func (*reader).closeIndex
-    flags locks lockonly
+    flags locks only_locks only_gc
     requires[locks] held(&r.indexMu) == 0
-    assigns reader.index
+    assigns r.index
+    ensures[gc_closed] r.index == nil
 func (*reader).GC
-    flags locks lockonly noframe
+    flags locks only_locks only_gc
     requires[locks] rdLocksFree()
+    assigns reader.index, reader.messages
+    // C01/C03: GC only unloads; the head segment - whose index is the writer's live index - is never touched,
+    // and a sealed segment only loses its cached index and its mapped file (both are reloaded on demand)
+    ensures[gc_head]   r.head ==> r.index == old(r.index) && r.messages == old(r.messages) && ret0 == nil
+    ensures[gc_unload] (r.index == old(r.index) || r.index == nil) && (r.messages == old(r.messages) || r.messages == nil)
+    ensures[gc_inuse]  old(r.messagesInuse) > 0 ==> r.messages == old(r.messages)
 func (*reader).Close
     flags locks lockonly
     requires[locks] rdLocksFree()
